@@ -507,6 +507,225 @@ class RotateBy(FnContract):
             P.check(qn + "/ensures:extra-arguments-passed-on", st.calls[0][1].get('center') is st.center and set(st.calls[0][1]) == {'center'})
 
 
+
+# =================================================================================================
+# Projected3dROI.contains3d, element-wise: for an arbitrary element e of the (rank 1 or 2) coordinate arrays the returned mask holds
+# INSIDE(sx, sy) of the 2-d region at the projected position of (x[e], y[e], z[e], 1) - every coordinate used with its own values -
+# whatever the chunking.  iterate_chunks is used through its contract (C20: every element lies in exactly one chunk inside the array).
+INSIDE = z3.Function('region_2d_contains', z3.RealSort(), z3.RealSort(), z3.BoolSort())
+CASTF = z3.Function('value_after_cast_to_another_coordinate_dtype', z3.IntSort(), z3.RealSort(), z3.RealSort())
+
+
+class Contains3d(FnContract):
+    property_ids = ('C08',)
+    target = ROI + ":Projected3dROI.contains3d"
+    title = ("an undefined region raises; otherwise, for every element, the answer is the 2-d region's answer at the perspective projection of (x, y, z, 1) - each coordinate "
+             "with its own values - independent of the chunking (iterate_chunks through its contract)")
+    budget_s = 60
+
+    def configs(self, tier):
+        return [dict(ndim=1, defined=True), dict(ndim=2, defined=True), dict(ndim=1, defined=False)]
+
+    def inputs(self, cfg, P):
+        from pyvc.values import PSlice
+        d = cfg['ndim']
+        shape = tuple(z3.Int('n%d' % i) for i in range(d))
+        e = tuple(z3.Int('e%d' % i) for i in range(d))
+        M = [[z3.Real('m%d%d' % (i, j)) for j in range(4)] for i in range(4)]
+        vals = {'x': z3.Real('x_e'), 'y': z3.Real('y_e'), 'z': z3.Real('z_e')}
+        st = St(shape=shape, e=e, M=M, vals=vals, d=d, masks=[])
+        P.ghost.update(cnt=0)
+
+        def arr(name, k):
+            a = PObj('coords', fields={'name': name, 'shape': shape, 'dtype': PObj('dtype', fields={'k': k})})
+
+            def getitem(I, self_, key):
+                if not (isinstance(key, tuple) and len(key) == d and all(isinstance(x, PSlice) for x in key)):
+                    raise Unsupported("coordinate array indexed by %r" % (key,))
+                return row(vals[name], key, k)
+            a.methods['__getitem__'] = getitem
+            return a
+
+        def row(val, slices, k=None):
+            r = PObj('row', fields={'val': val, 'slices': slices, 'dtype': PObj('dtype', fields={'k': k}), 'shape': (PObj('shape-of-chunk', fields={'slices': slices}),)})
+            return r
+        st.row = row
+        roi2 = PObj('Roi2d')
+
+        def contains(I, self_, sx, sy):
+            ok = all(isinstance(v, PObj) and v.cls == 'row' for v in (sx, sy)) and sx.fields['slices'] is sy.fields['slices']
+            I.path.check(I.hooks.name + "/call:roi_2d.contains-gets-screen-x-and-y-of-one-chunk", ok)
+            if not ok:
+                raise Unsupported("roi_2d.contains arguments")
+            return PObj('inside', fields={'at_e': INSIDE(sx.fields['val'], sy.fields['val']), 'slices': sx.fields['slices']})
+        roi2.methods['contains'] = contains
+        roi = PObj('Projected3dROI', fields={'roi_2d': roi2, 'projection_matrix': PObj('matrix', fields={'M': M})})
+        roi.methods['defined'] = lambda I, self_: cfg['defined']
+        st.roi = roi
+        return Inputs([roi, arr('x', 0), arr('y', 1), arr('z', 2)], st=st, symbols=dict(('n%d' % i, n) for i, n in enumerate(shape)))
+
+    def requires(self, cfg, st):
+        return [('extents>=1', S.And(*[n >= 1 for n in st.shape])), ('element-inside', S.And(*[S.And(0 <= x, x < n) for x, n in zip(st.e, st.shape)]))]
+
+    raises = {'UndefinedROI': lambda cfg, st: not cfg['defined']}
+
+    def globals_(self, cfg, st):
+        from pyvc.interp import AbstractGen
+        from pyvc.values import PSlice
+        d, row = st.d, st.row
+
+        def stack(rows):
+            sk = PObj('stack', fields={'rows': list(rows)})
+
+            def getitem(I, self_, key):
+                rs = self_.fields['rows']
+                if isinstance(key, int):
+                    return rs[key]
+                if isinstance(key, PSlice) and key.step is None and all(isinstance(v, (int, type(None))) for v in (key.start, key.stop)):
+                    return stack(rs[key.start:key.stop])
+                raise Unsupported("stack indexed by %r" % (key,))
+
+            def setitem(I, self_, key, value):
+                # writing one coordinate into a pre-allocated array converts it to that array's dtype
+                if not (isinstance(key, int) and isinstance(value, PObj) and value.cls == 'row'):
+                    raise Unsupported("stack[%r] = %r" % (key, value))
+                tgt = self_.fields.get('dtype')
+                same = tgt is None or tgt.fields['k'] is None or value.fields['dtype'].fields['k'] is None or tgt.fields['k'] == value.fields['dtype'].fields['k']
+                v = value.fields['val'] if same else CASTF(tgt.fields['k'], value.fields['val'])
+                self_.fields['rows'][key] = row(v, value.fields['slices'], tgt.fields['k'] if tgt is not None else value.fields['dtype'].fields['k'])
+
+            def div(I, self_, other):
+                if not (isinstance(other, PObj) and other.cls == 'row'):
+                    raise Unsupported("stack / %r" % (other,))
+                return stack([row(r.fields['val'] / other.fields['val'], r.fields['slices']) for r in self_.fields['rows']])
+            sk.methods.update({'__getitem__': getitem, '__setitem__': setitem, '__truediv__': div, '__iter__': lambda I, self_: PList(list(self_.fields['rows']))})
+            return sk
+
+        def np_array(I, items, dtype=None):
+            rows = list(I.iterate_concrete(items))
+            if not all(isinstance(r, PObj) and r.cls == 'row' for r in rows):
+                raise Unsupported("np.array of %r" % (rows,))
+            # a list of arrays is promoted to a common dtype that holds every value (A-REAL)
+            return stack(rows)
+
+        def ones(I, shape, dtype=None):
+            shape = tuple(shape) if isinstance(shape, tuple) else (shape,)
+            toks = [t for t in shape if isinstance(t, PObj) and t.cls == 'shape-of-chunk']
+            if len(toks) != 1:
+                raise Unsupported("np.ones(%r)" % (shape,))
+            sl = toks[0].fields['slices']
+            k = dtype.fields['k'] if isinstance(dtype, PObj) and dtype.cls == 'dtype' else None
+            lead = [t for t in shape if isinstance(t, int)]
+            if not lead:
+                return row(z3.RealVal(1), sl, k)
+            sk = stack([row(z3.RealVal(1), sl, k) for _ in range(lead[0])])
+            sk.fields['dtype'] = PObj('dtype', fields={'k': k})
+            return sk
+
+        def tensordot(I, a, b, axes=None):
+            ok = isinstance(a, PObj) and a.cls == 'matrix' and isinstance(b, PObj) and b.cls == 'stack' and len(b.fields['rows']) == 4 and axes == (1, 0)
+            I.path.check(I.hooks.name + "/call:projection-matrix-contracted-with-the-four-homogeneous-rows", ok)
+            if not ok:
+                raise Unsupported("tensordot arguments")
+            rs = b.fields['rows']
+            sl = rs[0].fields['slices']
+            I.path.check(I.hooks.name + "/call:rows-of-one-chunk", all(r.fields['slices'] is sl for r in rs))
+            M = a.fields['M']
+            return stack([row(sum((M[i][j] * rs[j].fields['val'] for j in range(1, 4)), M[i][0] * rs[0].fields['val']), sl) for i in range(4)])
+
+        def zeros(I, shape, dtype=None):
+            ok = isinstance(shape, tuple) and len(shape) == d and all(a is b for a, b in zip(shape, st.shape))
+            I.path.check(I.hooks.name + "/result-has-the-shape-of-x", ok)
+            m = PObj('mask', fields={'at_e': z3.BoolVal(False)})
+
+            def setitem(I2, self_, key, value):
+                ok2 = isinstance(value, PObj) and value.cls == 'inside' and key is value.fields['slices']
+                I2.path.check(I2.hooks.name + "/assign:answers-of-a-chunk-stored-at-that-chunk", ok2)
+                if not ok2:
+                    raise Unsupported("mask[%r] = %r" % (key, value))
+                inside = S.And(*[S.And(s_.start <= x, x < s_.stop) for s_, x in zip(key, st.e)])
+                self_.fields['at_e'] = S.If(inside, value.fields['at_e'], self_.fields['at_e'])
+            m.methods['__setitem__'] = setitem
+            st.masks.append(m)
+            return m
+
+        def chunks(I, shape, chunk_shape=None, n_max=None):
+            shp = tuple(I.iterate_concrete(shape))
+            ok = len(shp) == d and all(a is b for a, b in zip(shp, st.shape)) and (chunk_shape is None) != (n_max is None)
+            I.path.check(I.hooks.name + "/call:iterate_chunks.requires:shape-of-x-and-one-of-chunk_shape-n_max", ok)
+            if not ok:
+                raise Unsupported("iterate_chunks call")
+            if n_max is not None:
+                I.path.check(I.hooks.name + "/call:iterate_chunks.requires:n_max>=1", n_max >= 1)
+
+            def next_item(I2):
+                P2 = I2.path
+                sl = tuple(PSlice(P2.fresh_int('start%d' % i), P2.fresh_int('stop%d' % i), None) for i in range(d))
+                P2.assume(S.And(*[S.And(0 <= s_.start, s_.start < s_.stop, s_.stop <= n) for s_, n in zip(sl, shp)]))
+                inside = S.And(*[S.And(s_.start <= x, x < s_.stop) for s_, x in zip(sl, st.e)])
+                P2.ghost['cnt'] = P2.ghost['cnt'] + S.If(inside, 1, 0)
+                return sl
+
+            def finish(I2):
+                I2.path.assume(I2.path.ghost['cnt'] == 1)
+
+            def havoc(I2):
+                I2.path.ghost['cnt'] = I2.path.fresh_int('cnt')
+            return AbstractGen(next_item, finish, havoc)
+        return {'numpy.asarray': Builtin('np.asarray', lambda I, a, dtype=None: a), 'numpy.asanyarray': Builtin('np.asanyarray', lambda I, a, dtype=None: a),
+                'numpy.array': Builtin('np.array', np_array), 'numpy.ones': Builtin('np.ones', ones), 'numpy.tensordot': Builtin('np.tensordot', tensordot),
+                'numpy.zeros': Builtin('np.zeros', zeros), 'iterate_chunks': Builtin('iterate_chunks', chunks), 'UndefinedROI': PType('UndefinedROI'), 'bool': PType('bool')}
+
+    def spec(self, st):
+        M, v = st.M, st.vals
+        h = [M[i][0] * v['x'] + M[i][1] * v['y'] + M[i][2] * v['z'] + M[i][3] * z3.RealVal(1) for i in range(4)]
+        return INSIDE(h[0] / h[3], h[1] / h[3])
+
+    def loops(self, cfg, st):
+        from pyvc.interp import LoopSpec
+
+        def inv(L):
+            return [('cnt>=0', L.ghost['cnt'] >= 0),
+                    ('element-answered-once-its-chunk-passed', S.Or(L.ghost['cnt'] < 1, L.mask.fields['at_e'] == self.spec(st)))]
+
+        def on_iter(what, L):
+            if what == 'havoc':
+                L.mask.fields['at_e'] = L.interp.path.fresh('mask_at_e', z3.BoolSort())
+        return {0: LoopSpec(inv=inv, on_iter=on_iter)}
+
+    def ensures(self, cfg, st, result):
+        ok = isinstance(result, PObj) and result.cls == 'mask' and len(st.masks) == 1
+        if not ok:
+            return [('returns-the-mask-array', False)]
+        return [('returns-the-mask-array', True), ('answer-at-every-element-is-the-2d-region-at-its-projection', result.fields['at_e'] == self.spec(st))]
+
+    def native(self, cfg, val):
+        import os
+        import sys
+        import numpy as np
+        sys.path.insert(0, os.environ.get('GLUE_REPO', '/repo'))
+        from glue.core.roi import Projected3dROI, RectangularROI
+        M = np.array([[1., 0, 0.2, 0], [0, 1., 0.1, 0], [0, 0, 1., 0], [0, 0, 0.05, 1.]])
+        p = Projected3dROI(RectangularROI(-1.0, 1.5, -0.5, 2.0), M)
+        rs = np.random.RandomState(0)
+        n = 4000
+        base = [rs.uniform(-3, 3, n) for _ in range(3)]
+        for kinds in (('f8', 'f8', 'f8'), ('i8', 'f8', 'f8'), ('f4', 'f8', 'f8'), ('f8', 'i4', 'f8'), ('f8', 'f8', 'i2')):
+            xs = [np.round(a * 3).astype(k) if k[0] == 'i' else a.astype(k) for a, k in zip(base, kinds)]
+            got = np.asarray(p.contains3d(*xs))
+            h = M @ np.vstack([a.astype(float) for a in xs] + [np.ones(n)])
+            sx, sy = h[0] / h[3], h[1] / h[3]
+            want = (sx > -1.0) & (sx < 1.5) & (sy > -0.5) & (sy < 2.0)
+            far = (np.abs(sx + 1) > 1e-3) & (np.abs(sx - 1.5) > 1e-3) & (np.abs(sy + 0.5) > 1e-3) & (np.abs(sy - 2) > 1e-3)
+            nb = int(np.sum((got != want) & far))
+            if nb:
+                return (False, "contains3d with coordinate dtypes %s/%s/%s: %d of %d points away from the boundary classified differently from the explicit projection of the same values" % (kinds + (nb, n)))
+        return None
+
+    def native_call(self, cfg, val):
+        return "Projected3dROI(RectangularROI(-1, 1.5, -0.5, 2), perspective matrix).contains3d(x, y, z) with mixed coordinate dtypes"
+
+
 CONTRACTS = [RectContains(), RectToPolygon(), RectMoveTo(), RectTranspose(), CircleContains(), AnnulusContains(), EllipseContains(),
              RangeContains(), RangeMoveTo(), _mv('CircularROI', ('radius',)), _mv('CircularAnnulusROI', ('inner_radius', 'outer_radius')),
-             _mv('EllipticalROI', ('radius_x', 'radius_y', 'theta')), RotateBy()]
+             _mv('EllipticalROI', ('radius_x', 'radius_y', 'theta')), RotateBy(), Contains3d()]
